@@ -2,6 +2,8 @@ package sym
 
 import (
 	"fmt"
+	"os"
+	"strings"
 	"go/token"
 	"go/types"
 	"path"
@@ -44,9 +46,18 @@ func (in *interp) timeParts(t value) (mono, unixnano value, loc *value) {
 }
 
 func (in *interp) clockNow() value {
-	in.yield()
+	if in.curFrame != nil && !strings.HasPrefix(fnPkgPath(in.curFrame.fn), "github.com/tikv/pd") {
+		unsupported("time.Now called from library code %s", in.curFrame.fn)
+	}
+	if in.inInit > 0 {
+		// package initialisers ran before the harness natively: a fixed instant, not a model reading
+		return in.mkTime(uint64(1), int64(ClockLo), in.locSentinel())
+	}
 	k := in.clockN
 	in.clockN++
+	if os.Getenv("GOSMT_SCHEDDBG") != "" {
+		fmt.Fprintf(os.Stderr, "clock %d @ %s\n", k, in.where())
+	}
 	c := in.ctx
 	var wall, mono value
 	if in.x.cfg.Pin != nil {
@@ -56,14 +67,14 @@ func (in *interp) clockNow() value {
 		w := c.Var(fmt.Sprintf("clk.wall#%d", k), 64)
 		m := c.Var(fmt.Sprintf("clk.mono#%d", k), 64)
 		in.nondets = append(in.nondets, nondet{w.Name, w}, nondet{m.Name, m})
-		in.assume(mkval(c.And(
+		in.addPC(c.And(
 			c.Cmp("bvsle", c.Const(64, uint64(ClockLo)), w),
 			c.Cmp("bvsle", w, c.Const(64, uint64(ClockHi))),
 			c.Cmp("bvule", c.Const(64, 1), m),
 			c.Cmp("bvule", m, c.Const(64, 1<<62)),
-		), types.Bool))
+		)) // fresh variables: always satisfiable, no solver call needed
 		if in.lastMono != nil {
-			in.assume(mkval(c.Cmp("bvule", in.lastMono, m), types.Bool))
+			in.addPC(c.Cmp("bvule", in.lastMono, m))
 		}
 		in.lastMono = m
 		wall = &Sym{T: w, K: types.Int64}
